@@ -9,10 +9,12 @@ package main
 // inherited layers (MergeFileLayers) unless -P is given, in which case the file alone is merged (MergeFile).
 //@ func main() ()
 //@   propagates all   [C08] [C03] [C05]
-//@   property C05, C03
+//@   property C05, C03, C18
 //@   loop 1
 //@     transition (=> (not (= format@iter "")) (= format format@iter))                                      [C05]
 //@   at call Parser.MergeFile#1
 //@     assert (options.SkipParent opts)                                                                     [C03]
+//@     assert (=> (not (= (options.RootPath opts) 0)) (called Parser.SetRoot#1))                            [C18]
 //@   at call Parser.MergeFileLayers#1
 //@     assert (not (options.SkipParent opts))                                                               [C03]
+//@     assert (=> (not (= (options.RootPath opts) 0)) (called Parser.SetRoot#1))                            [C18]
